@@ -17,4 +17,18 @@ structure Normaliser where
 theorem streamSafe_congr (a b : Str) (h : nfkd a = nfkd b) : streamSafe a = streamSafe b := by
   unfold streamSafe; rw [h]
 
+
+/-- the two assumptions are consistent: here is a normaliser satisfying both (UAX #15 NFKD on the
+stream-safe class, thirty combining acute accents elsewhere), so no theorem about a `Normaliser` is
+vacuous -/
+def exampleNormaliser : Normaliser where
+  X s := if streamSafe s = true then nfkd s else List.replicate 30 0x301
+  agrees s h := by simp [h]
+  overflow s h := by
+    refine ⟨[], List.replicate 30 0x301, [], by simp [h], by simp, ?_⟩
+    intro c hc
+    have : c = 0x301 := List.eq_of_mem_replicate hc
+    subst this
+    decide +kernel
+
 end Bip39V
